@@ -61,7 +61,9 @@ pub(crate) fn parse(range: Option<&HeaderValue>, len: u64) -> ResolvedRanges {
                 Err(_) => return ResolvedRanges::None, // unparseable
                 Ok(l) => l,
             };
-            if last >= len {
+            // A suffix longer than the entity selects the whole entity; `-0` selects nothing.
+            let last = cmp::min(last, len);
+            if last == 0 {
                 continue; // this range is not satisfiable; skip.
             }
             ranges.push((len - last)..len);
@@ -75,7 +77,8 @@ pub(crate) fn parse(range: Option<&HeaderValue>, len: u64) -> ResolvedRanges {
                     match u64::from_str(&r[hyphen + 1..]) {
                         Err(_) => return ResolvedRanges::None, // unparseable
                         Ok(l) => l,
-                    } + 1,
+                    }
+                    .saturating_add(1),
                     len,
                 )
             } else {
